@@ -131,7 +131,8 @@ def det_line(rng, family):
         toks += [f"reps={reps}", "trail=" + ",".join([f"{rng.randint(0, 64)}:{rng.randrange(2, 1 << 30)}", "64:0", "100:1", "1024:" + str(rng.randrange(1 << 30))])]
         tags = ("det", "family:sparse-alphabet", "expert" if expert else "encoder")
     else:
-        g = rand_geom(rng)
+        big = rng.random() < 0.08
+        g = rand_geom(rng, sizes_pc=(800, 2500), sizes_mesh=(250, 600)) if big else rand_geom(rng)
         while g.num_points == 0:
             g = rand_geom(rng)
         if family == "kd":
@@ -240,7 +241,7 @@ def first_diff(a, b):
 
 def base_cases(rng, tier):
     cases = []
-    n = 1500 if tier == "thorough" else 500
+    n = 1800 if tier == "thorough" else 600
     fams = ["general"] * 6 + ["speedmethod"] * 2 + ["kd"] + ["sparse"]
     for i in range(n):
         fam = fams[i % len(fams)]
@@ -257,7 +258,15 @@ def base_cases(rng, tier):
     legacy = [e for e in small if e["kind"] == "legacy"]
     pick = legacy + rng.sample([e for e in small if e["kind"] == "frozen"], 150 if tier == "thorough" else 40)
     for e in pick:
-        hist = [streams[x["name"]].hex() for x in rng.sample(small, rng.choice([0, 1, 2]))]
+        hist = []
+        for x in rng.sample(small, rng.choice([0, 1, 2, 3])):
+            hb = streams[x["name"]]
+            r = rng.random()
+            if r < 0.15:
+                hb = hb[:rng.randint(1, 10)]                 # history call that fails inside the header
+            elif r < 0.3:
+                hb = K.rewrite_version(hb, 9, 9)            # history call that fails at the version gate
+            hist.append(hb.hex())
         skip = "".join(str(t) for t in range(5) if rng.random() < 0.3)
         line = f"det_dec reps=2 {trail_spec(rng)}" + (f" skip={skip}" if skip else "") + " " + streams[e["name"]].hex() + \
                ("" if not hist else " " + " ".join(hist))
